@@ -1,8 +1,10 @@
 import Mp4ff.Model.Aac
 import Mp4ff.Lemmas.C18Proofs
+import Mp4ff.Props.C18b
 /-!
 # C18 — audio configuration codecs are exact over their whole domain
-Property theorems (proofs in `Mp4ff/Lemmas/C18Proofs.lean`).
+Property theorems (proofs in `Mp4ff/Lemmas/C18Proofs.lean`).  The esds / MPEG-4 descriptor framing and the
+clause "an AAC sample entry built from a configuration decodes back to that configuration" are in `Props/C18b.lean`.
 -/
 namespace Mp4ff.Aac.C18
 
